@@ -33,40 +33,54 @@ Section CanonProofs.
     exists elt used, fst g = elt :: used /\ numeric_start elt = false /\
                      step SC e elt used = Ok (snd g, []).
 
-  Lemma groups_head (e : env) f toks gs : groups_from SC f e toks = Ok gs -> kw_head toks.
+  (* a group as [groups_from] records it: valid, or writing nothing *)
+  Definition okg (e : env) (g : group) : Prop :=
+    valid e g \/ (kws_empty (snd g) = true /\ exists elt, fst g = [elt]).
+
+  Lemma groups_head (e : env) f toks gs : groups_from SC f e false toks = Ok gs -> kw_head toks.
   Proof.
     destruct toks as [|elt rest]; [intros _; exact I|].
     destruct f as [|f]; [discriminate|]. cbn [groups_from kw_head].
     destruct (step SC e elt rest) as [[d rest']|]; [|discriminate]. cbn [bind].
-    destruct (numeric_start elt); [discriminate|reflexivity].
+    destruct (kws_empty d && toks_eqb rest' rest).
+    - rewrite orb_false_r. destruct (numeric_start elt); [discriminate|reflexivity].
+    - destruct (numeric_start elt); [discriminate|reflexivity].
   Qed.
 
-  Lemma groups_sound (e : env) f : forall toks gs st,
-    groups_from SC f e toks = Ok gs ->
-    parse_from SC f e st toks = Ok (fold_left upd (map snd gs) st) /\ Forall (valid e) gs.
+  Lemma groups_sound (e : env) f : forall toks gs st p,
+    groups_from SC f e p toks = Ok gs ->
+    parse_from SC f e st toks = Ok (fold_left upd (map snd gs) st) /\ Forall (okg e) gs.
   Proof.
-    induction f as [|f IH]; intros toks gs st H.
+    induction f as [|f IH]; intros toks gs st p H.
     - destruct toks; [|discriminate]. cbn in H. inversion H; subst. split; [reflexivity|constructor].
     - destruct toks as [|elt rest].
       + cbn in H. inversion H; subst. split; [reflexivity|constructor].
       + cbn [groups_from parse_from] in *.
         destruct (step SC e elt rest) as [[d rest']|] eqn:Es; [|discriminate]. cbn [bind] in *.
-        remember (firstn (List.length rest - List.length rest') rest) as used eqn:Eused.
-        destruct (negb (numeric_start elt) && toks_eqb (used ++ rest') rest
-                  && match step SC e elt used with Ok (_, []) => true | _ => false end) eqn:Ec;
-          [|discriminate].
-        apply andb_true_iff in Ec. destruct Ec as [Ec E3].
-        apply andb_true_iff in Ec. destruct Ec as [E1 E2].
-        apply negb_true_iff in E1. apply toks_eqb_eq in E2.
-        destruct (groups_from SC f e rest') as [gs'|] eqn:Eg; [|discriminate].
-        cbn [bind] in H. inversion H; subst gs. clear H.
-        destruct (IH rest' gs' (upd st d) Eg) as [Hp Hv].
-        split; [exact Hp|].
-        constructor; [|exact Hv].
-        exists elt, used. cbn [fst snd]. split; [reflexivity|]. split; [exact E1|].
-        destruct (step SC e elt used) as [[d' [|? ?]]|] eqn:Eu; try discriminate.
-        pose proof (step_app SC e elt used rest' d' [] (groups_head e f rest' gs' Eg) Eu) as Ha.
-        cbn [app] in Ha. rewrite E2, Es in Ha. inversion Ha; subst d'. reflexivity.
+        destruct (kws_empty d && toks_eqb rest' rest) eqn:Ee.
+        * destruct (negb (numeric_start elt) || p); [|discriminate].
+          destruct (groups_from SC f e true rest') as [gs'|] eqn:Eg; [|discriminate].
+          cbn [bind] in H. inversion H; subst gs. clear H.
+          destruct (IH rest' gs' (upd st d) true Eg) as [Hp Hv].
+          split; [exact Hp|]. constructor; [|exact Hv].
+          right. apply andb_true_iff in Ee. cbn [fst snd]. split; [exact (proj1 Ee)|].
+          exists elt. reflexivity.
+        * remember (firstn (List.length rest - List.length rest') rest) as used eqn:Eused.
+          destruct (negb (numeric_start elt) && toks_eqb (used ++ rest') rest
+                    && match step SC e elt used with Ok (_, []) => true | _ => false end) eqn:Ec;
+            [|discriminate].
+          apply andb_true_iff in Ec. destruct Ec as [Ec E3].
+          apply andb_true_iff in Ec. destruct Ec as [E1 E2].
+          apply negb_true_iff in E1. apply toks_eqb_eq in E2.
+          destruct (groups_from SC f e false rest') as [gs'|] eqn:Eg; [|discriminate].
+          cbn [bind] in H. inversion H; subst gs. clear H.
+          destruct (IH rest' gs' (upd st d) false Eg) as [Hp Hv].
+          split; [exact Hp|].
+          constructor; [|exact Hv]. left.
+          exists elt, used. cbn [fst snd]. split; [reflexivity|]. split; [exact E1|].
+          destruct (step SC e elt used) as [[d' [|? ?]]|] eqn:Eu; try discriminate.
+          pose proof (step_app SC e elt used rest' d' [] (groups_head e f rest' gs' Eg) Eu) as Ha.
+          cbn [app] in Ha. rewrite E2, Es in Ha. inversion Ha; subst d'. reflexivity.
   Qed.
 
   Definition gtoks (gs : list group) : list string := List.concat (map fst gs).
@@ -504,25 +518,42 @@ Section CanonProofs.
   Ltac form_of Hsh Hsel :=
     inversion Hsh; subst; cbn in Hsel; try discriminate.
 
+  Lemma empty_not_sel (d : kws) : kws_empty d = true ->
+    has_fill d = false /\ has_lat d = false /\ has_trcl d = false /\ has_u d = false /\
+    has_rho d = false /\ has_mat d = false.
+  Proof.
+    unfold kws_empty, has_fill, has_lat, has_trcl, has_u, has_rho, has_mat. intros H.
+    repeat (apply andb_true_iff in H; destruct H as [H ?]).
+    repeat match goal with Hx : negb _ = true |- _ => apply negb_true_iff in Hx end.
+    repeat split; assumption.
+  Qed.
+
+  Ltac solve_ne :=
+    let d0 := fresh "d0" in let H0 := fresh "H0" in
+    intros d0 H0; destruct (empty_not_sel d0 H0) as (? & ? & ? & ? & ? & ?); assumption.
+
   Lemma sel_valid (e : env) (sel : kws -> bool) gs g :
-    Forall (valid e) gs -> last_with sel gs = Some g ->
+    (forall d, kws_empty d = true -> sel d = false) ->
+    Forall (okg e) gs -> last_with sel gs = Some g ->
     valid e g /\ shape (snd g) /\ sel (snd g) = true.
   Proof.
-    intros Hv Hl. destruct (last_with_sel sel gs g Hl) as [Hs Hi].
+    intros Hne Hv Hl. destruct (last_with_sel sel gs g Hl) as [Hs Hi].
     pose proof (proj1 (Forall_forall _ _) Hv g Hi) as Hg.
+    destruct Hg as [Hg|[He _]]; [|rewrite (Hne _ He) in Hs; discriminate].
     split; [exact Hg|]. split; [exact (valid_shape e g Hg)|exact Hs].
   Qed.
 
   Lemma opt_valid (e : env) (sel : kws -> bool) gs :
-    Forall (valid e) gs -> Forall (valid e) (opt_list (last_with sel gs)).
+    (forall d, kws_empty d = true -> sel d = false) ->
+    Forall (okg e) gs -> Forall (valid e) (opt_list (last_with sel gs)).
   Proof.
-    intros Hv. destruct (last_with sel gs) as [g|] eqn:E; cbn; [|constructor].
-    constructor; [exact (proj1 (sel_valid e sel gs g Hv E))|constructor].
+    intros Hne Hv. destruct (last_with sel gs) as [g|] eqn:E; cbn; [|constructor].
+    constructor; [exact (proj1 (sel_valid e sel gs g Hne Hv E))|constructor].
   Qed.
 
   (* the dictionary of the constructed option list *)
   Lemma canon_dict (e : env) gs cg :
-    Forall (valid e) gs -> canon_groups SC e gs = Ok cg ->
+    Forall (okg e) gs -> canon_groups SC e gs = Ok cg ->
     let K := fold_left upd (map snd gs) kempty in
     let Kc := fold_left upd (map snd cg) kempty in
     Forall (valid e) cg /\
@@ -537,7 +568,7 @@ Section CanonProofs.
     cbn [bind] in H. inversion H; subst cg. clear H.
     destruct (imps_facts e _ _ (all_ok_forall _ _ Ei)) as (Hvi & Hoi & Hri).
     split.
-    { repeat (apply Forall_app; split); try (apply opt_valid; exact Hv). exact Hvi. }
+    { repeat (apply Forall_app; split); try (apply opt_valid; [solve_ne|exact Hv]). exact Hvi. }
     rewrite (K_u gs), (K_lat gs), (K_trcl gs).
     pose proof (K_fill gs kempty) as HKf. cbv beta in HKf. rewrite HKf. clear HKf.
     rewrite !map_app, !fold_left_app.
@@ -550,23 +581,25 @@ Section CanonProofs.
     repeat match goal with
     | E : last_with ?sel gs = Some (?t, ?d) |- _ =>
         let Hsh := fresh "Hsh" in let Hs := fresh "Hs" in
-        destruct (sel_valid e sel gs (t, d) Hv E) as (_ & Hsh & Hs);
+        destruct (sel_valid e sel gs (t, d) ltac:(solve_ne) Hv E) as (_ & Hsh & Hs);
         cbn [snd] in Hsh, Hs; inversion Hsh; subst; cbn in Hs; try discriminate; clear E Hsh Hs
     end;
     cbn; repeat split; try reflexivity; rewrite ?app_nil_r; exact Hri.
   Qed.
 
-  Lemma toklog_rel (e : env) gs : Forall (valid e) gs ->
+  Lemma toklog_rel (e : env) gs : Forall (okg e) gs ->
     Forall2 (imp_rel e) (flat_map (@imp_tokens T) gs) (List.concat (map (@k_impl T) (map snd gs))).
   Proof.
     induction 1 as [|[tg dg] r Hg Hr IH]; cbn [flat_map map List.concat]; [constructor|].
     apply Forall2_app; [|exact IH].
-    destruct Hg as (elt & used & Hf & _ & Hs). cbn [fst snd] in *. subst tg.
-    exact (step_imp e elt used dg Hs).
+    destruct Hg as [(elt & used & Hf & _ & Hs)|[He (elt & Hf)]]; cbn [fst snd] in *; subst tg.
+    - exact (step_imp e elt used dg Hs).
+    - unfold imp_tokens. cbn [fst]. unfold kws_empty in He.
+      destruct (k_impl dg); [constructor|discriminate].
   Qed.
 
   Lemma imp_value_canon (e : env) gs (lc : list (string * T)) :
-    Forall (valid e) gs ->
+    Forall (okg e) gs ->
     Forall2 (imp_rel e) (imp_dict (flat_map (@imp_tokens T) gs)) lc ->
     imp_value SC lc = imp_value SC (k_impl (fold_left upd (map snd gs) kempty)).
   Proof.
@@ -678,7 +711,7 @@ Section CanonProofs.
   Qed.
 
   Lemma canon_mat_spec (e : env) mw gs mw' mid rho :
-    Forall (valid e) gs ->
+    Forall (okg e) gs ->
     parse_material_w e mw = Ok (mid, rho) -> canon_mat mw gs = Ok mw' ->
     let K := fold_left upd (map snd gs) kempty in
     let mid' := match k_mat K with Some m => m | None => mid end in
@@ -710,7 +743,7 @@ Section CanonProofs.
     worker_w SC e rank lat (mw', g, gtoks cg) = Ok c.
   Proof.
     intros Hg Hm Hc Hw. unfold groups in Hg.
-    destruct (groups_sound e _ toks gs kempty Hg) as [Hp Hv].
+    destruct (groups_sound e _ toks gs kempty false Hg) as [Hp Hv].
     destruct (canon_dict e gs cg Hv Hc) as (Hvc & Hu & Hl & Ht & Hf & Hr & Hma & Hi).
     unfold worker_w in *.
     destruct (parse_material_w e mw) as [[mid rho]|] eqn:Epm; [|discriminate].
@@ -805,54 +838,85 @@ Section Override.
   Lemma toks_eqb_refl (a : list string) : toks_eqb a a = true.
   Proof. unfold toks_eqb. induction a as [|x a IH]; cbn; [reflexivity|]. now rewrite String.eqb_refl, IH. Qed.
 
-  Lemma groups_from_fuel (e : env) f1 : forall f2 toks,
+  Lemma groups_from_fuel (e : env) f1 : forall f2 p toks,
     (List.length toks <= f1)%nat -> (List.length toks <= f2)%nat ->
-    groups_from SC f1 e toks = groups_from SC f2 e toks.
+    groups_from SC f1 e p toks = groups_from SC f2 e p toks.
   Proof.
-    induction f1 as [|f1 IH]; intros f2 toks H1 H2.
+    induction f1 as [|f1 IH]; intros f2 p toks H1 H2.
     - destruct toks; [destruct f2; reflexivity|cbn in H1; lia].
     - destruct toks as [|elt rest]; [destruct f2; reflexivity|].
       destruct f2 as [|f2]; [cbn in H2; lia|]. cbn [groups_from].
       destruct (step SC e elt rest) as [[d rest']|] eqn:E; [|reflexivity]. cbn [bind].
-      destruct (_ && _ && _); [|reflexivity].
-      apply (step_length SC) in E. cbn in H1, H2. rewrite (IH f2 rest'); [reflexivity|lia|lia].
+      apply (step_length SC) in E. cbn in H1, H2.
+      destruct (kws_empty d && toks_eqb rest' rest).
+      + destruct (negb (numeric_start elt) || p); [|reflexivity].
+        rewrite (IH f2 true rest'); [reflexivity|lia|lia].
+      + destruct (_ && _ && _); [|reflexivity].
+        rewrite (IH f2 false rest'); [reflexivity|lia|lia].
   Qed.
 
-  Lemma groups_from_app (e : env) f : forall a b ga gb g,
-    (List.length a <= f)%nat -> (List.length b <= g)%nat ->
-    groups_from SC f e a = Ok ga -> groups_from SC g e b = Ok gb ->
-    groups_from SC (f + g) e (a ++ b) = Ok (ga ++ gb).
+  Lemma groups_prev_mono (e : env) f toks gs :
+    groups_from SC f e false toks = Ok gs -> forall p, groups_from SC f e p toks = Ok gs.
   Proof.
-    induction f as [|f IH]; intros a b ga gb g Ha Hb Hga Hgb.
-    - destruct a; [|cbn in Ha; lia]. cbn in Hga. inversion Hga; subst. cbn [app Nat.add]. exact Hgb.
+    intros H [|]; [|exact H]. destruct toks as [|elt rest]; [destruct f; exact H|].
+    destruct f as [|f]; [discriminate|]. cbn [groups_from] in *.
+    destruct (step SC e elt rest) as [[d rest']|]; [|discriminate]. cbn [bind] in *.
+    destruct (kws_empty d && toks_eqb rest' rest); [|exact H].
+    rewrite orb_false_r in H. destruct (numeric_start elt); [discriminate|exact H].
+  Qed.
+
+  Lemma toks_eqb_neq (a b : list string) : toks_eqb a b = false -> a <> b.
+  Proof. intros H ->. rewrite toks_eqb_refl in H. discriminate. Qed.
+
+  Lemma groups_from_app (e : env) f : forall a b ga gb g p,
+    (List.length a <= f)%nat -> (List.length b <= g)%nat ->
+    groups_from SC f e p a = Ok ga -> groups_from SC g e false b = Ok gb ->
+    groups_from SC (f + g) e p (a ++ b) = Ok (ga ++ gb).
+  Proof.
+    induction f as [|f IH]; intros a b ga gb g p Ha Hb Hga Hgb.
+    - destruct a; [|cbn in Ha; lia]. cbn in Hga. inversion Hga; subst. cbn [app Nat.add].
+      exact (groups_prev_mono e g b gb Hgb p).
     - destruct a as [|elt rest].
       + cbn in Hga. inversion Hga; subst. cbn [app].
-        rewrite (groups_from_fuel e (S f + g) g b); [exact Hgb|lia|lia].
+        rewrite (groups_from_fuel e (S f + g) g p b); [exact (groups_prev_mono e g b gb Hgb p)|lia|lia].
       + cbn [app Nat.add groups_from] in *.
         destruct (step SC e elt rest) as [[d rest']|] eqn:Es; [|discriminate]. cbn [bind] in *.
-        remember (firstn (List.length rest - List.length rest') rest) as used eqn:Eu.
-        destruct (negb (numeric_start elt) && toks_eqb (used ++ rest') rest
-                  && match step SC e elt used with Ok (_, []) => true | _ => false end) eqn:Ec;
-          [|discriminate].
-        destruct (groups_from SC f e rest') as [gs'|] eqn:Eg; [|discriminate].
-        cbn [bind] in Hga. inversion Hga; subst ga. clear Hga.
         rewrite (step_app SC e elt rest b d rest' (groups_head SC e g b gb Hgb) Es). cbn [bind].
-        pose proof (step_length SC e elt rest d rest' Es) as Hl.
-        apply andb_true_iff in Ec. destruct Ec as [Ec E3].
-        apply andb_true_iff in Ec. destruct Ec as [E1 E2].
-        pose proof (toks_eqb_eq _ _ E2) as E2'.
-        assert (Hu : firstn (List.length (rest ++ b) - List.length (rest' ++ b)) (rest ++ b) = used).
-        { rewrite !app_length.
-          replace (List.length rest + List.length b - (List.length rest' + List.length b))%nat
-            with (List.length rest - List.length rest')%nat by lia.
-          rewrite firstn_app.
-          replace (List.length rest - List.length rest' - List.length rest)%nat with 0%nat by lia.
-          cbn [firstn]. rewrite app_nil_r. symmetry. exact Eu. }
-        rewrite Hu, E1, E3. cbn [andb].
-        replace (toks_eqb (used ++ rest' ++ b) (rest ++ b)) with true
-          by (rewrite app_assoc, E2'; symmetry; apply toks_eqb_refl).
-        rewrite (IH rest' b gs' gb g); [reflexivity| |exact Hb|exact Eg|exact Hgb].
-        cbn in Ha. lia.
+        pose proof (step_length SC e elt rest d rest' Es) as Hl. cbn in Ha.
+        destruct (kws_empty d && toks_eqb rest' rest) eqn:Ee.
+        * apply andb_true_iff in Ee. destruct Ee as [Ee1 Ee2].
+          pose proof (toks_eqb_eq _ _ Ee2) as Er. subst rest'.
+          rewrite Ee1, toks_eqb_refl. cbn [andb].
+          destruct (negb (numeric_start elt) || p); [|discriminate].
+          destruct (groups_from SC f e true rest) as [gs'|] eqn:Eg; [|discriminate].
+          cbn [bind] in Hga. inversion Hga; subst ga. clear Hga.
+          rewrite (IH rest b gs' gb g true); [reflexivity|lia|exact Hb|exact Eg|exact Hgb].
+        * assert (Hne : kws_empty d && toks_eqb (rest' ++ b) (rest ++ b) = false).
+          { destruct (kws_empty d); [|reflexivity]. cbn [andb] in *.
+            destruct (toks_eqb (rest' ++ b) (rest ++ b)) eqn:Eb; [|reflexivity].
+            apply toks_eqb_eq, app_inv_tail in Eb. subst rest'.
+            rewrite toks_eqb_refl in Ee. discriminate. }
+          rewrite Hne.
+          remember (firstn (List.length rest - List.length rest') rest) as used eqn:Eu.
+          destruct (negb (numeric_start elt) && toks_eqb (used ++ rest') rest
+                    && match step SC e elt used with Ok (_, []) => true | _ => false end) eqn:Ec;
+            [|discriminate].
+          destruct (groups_from SC f e false rest') as [gs'|] eqn:Eg; [|discriminate].
+          cbn [bind] in Hga. inversion Hga; subst ga. clear Hga.
+          apply andb_true_iff in Ec. destruct Ec as [Ec E3].
+          apply andb_true_iff in Ec. destruct Ec as [E1 E2].
+          pose proof (toks_eqb_eq _ _ E2) as E2'.
+          assert (Hu : firstn (List.length (rest ++ b) - List.length (rest' ++ b)) (rest ++ b) = used).
+          { rewrite !app_length.
+            replace (List.length rest + List.length b - (List.length rest' + List.length b))%nat
+              with (List.length rest - List.length rest')%nat by lia.
+            rewrite firstn_app.
+            replace (List.length rest - List.length rest' - List.length rest)%nat with 0%nat by lia.
+            cbn [firstn]. rewrite app_nil_r. symmetry. exact Eu. }
+          rewrite Hu, E1, E3. cbn [andb].
+          replace (toks_eqb (used ++ rest' ++ b) (rest ++ b)) with true
+            by (rewrite app_assoc, E2'; symmetry; apply toks_eqb_refl).
+          rewrite (IH rest' b gs' gb g false); [reflexivity|lia|exact Hb|exact Eg|exact Hgb].
   Qed.
 
   Lemma fold_sel_acc (sel : kws (T:=T) -> bool) (b : list group) : forall x,
@@ -882,7 +946,7 @@ Section Override.
     flat_map (@imp_tokens T) (gb ++ go) = flat_map (@imp_tokens T) gb ++ flat_map (@imp_tokens T) go.
   Proof.
     intros Hb Ho. unfold groups in *. split; [|split].
-    - rewrite app_length. apply (groups_from_app e _ tb to gb go _ (le_n _) (le_n _) Hb Ho).
+    - rewrite app_length. apply (groups_from_app e _ tb to gb go _ false (le_n _) (le_n _) Hb Ho).
     - intros sel. apply last_with_app.
     - apply flat_map_app.
   Qed.
